@@ -656,4 +656,41 @@ def scripted_stream(ck, qr, numpy, m):
             ck.fail("script:handed-out:bookkeeping", "bookkeeping not restored", inp)
             m.basis_stack[:] = [0]; m.basis_transformations[:] = [1]; m.basis_registered.clear()
             m._in_eigenbasis_of_context = False; m.current_basis_operator = None
+    # ---- a relaxation tensor whose construction is refused inside a context (cut-off time beyond the bath axis), caught by the caller ----
+    from quantarhei import Molecule, Aggregate, CorrelationFunction
+    from quantarhei.qm import RedfieldRelaxationTensor
+    from quantarhei.qm.liouvillespace.tdredfieldtensor import TDRedfieldRelaxationTensor
+    tab_ = TimeAxis(0.0, 40, 1.0)
+    with energy_units("1/cm"):
+        msb = [Molecule([0.0, 12000.0]), Molecule([0.0, 12200.0])]
+        for ml_ in msb:
+            ml_.set_transition_environment((0, 1), CorrelationFunction(tab_, dict(ftype="OverdampedBrownian", reorg=20.0, cortime=50.0, T=300, matsubara=20)))
+        aggb = Aggregate(msb); aggb.set_resonance_coupling(0, 1, 80.0)
+    aggb.build()
+    hamb, sbib = aggb.get_Hamiltonian(), aggb.get_SystemBathInteraction()
+    for tname, tcls in (("RedfieldRelaxationTensor", RedfieldRelaxationTensor), ("TDRedfieldRelaxationTensor", TDRedfieldRelaxationTensor)):
+        for ops_ in (False, True):
+            a0 = symm(); A = Operator(data=a0.copy())
+            inp = {"script": "a relaxation tensor refused inside the context (cut-off time beyond the axis), caught by the caller", "class": tname, "as_operators": ops_}
+            ck.case(("script-refused-tensor", tname, ops_), nontrivial=True, kind="scripted", cls="refused:" + tname, nesting=1)
+            refused = None
+            try:
+                with eigenbasis_of(hamb):
+                    A.data
+                    try:
+                        tcls(hamb, sbib, cutoff_time=500.0, as_operators=ops_); refused = False
+                    except Exception:
+                        refused = True
+            except Exception as e:
+                ck.fail("script:refused-construction:exit", "leaving the context after a refused tensor construction raised %r" % (e,), inp)
+            if refused is False:
+                ck.extra.setdefault("constructions_not_refused", []).append(tname)
+            if numpy.abs(numpy.asarray(A._data) - a0).max() > 1e-9 or A.get_current_basis() != 0:
+                ck.fail("script:refused-construction:restore", "an operator is not back in its original representation after a context in which a tensor "
+                        "construction was refused", inp, float(numpy.abs(numpy.asarray(A._data) - a0).max()))
+            if len(m.basis_stack) != 1 or m.basis_registered or m.current_basis_operator is not None:
+                ck.fail("script:refused-construction:bookkeeping", "bookkeeping not restored after a context in which a tensor construction was refused", inp,
+                        [list(m.basis_stack), sorted(m.basis_registered), m.current_basis_operator is not None])
+                m.basis_stack[:] = [0]; m.basis_transformations[:] = [1]; m.basis_registered.clear()
+                m._in_eigenbasis_of_context = False; m.current_basis_operator = None
 
